@@ -101,6 +101,11 @@ var mtimeBase = time.Date(2010, 3, 4, 5, 6, 7, 0, time.UTC)
 // mtimeOf gives every entry its own modification time: odd and even seconds (the MS-DOS field of a zip header
 // has a 2 s resolution), a sub-second part, hours apart from its neighbours.
 func mtimeOf(i int) time.Time {
+	if i%3 == 1 {
+		// every third entry is older than 1980, the first date the MS-DOS fields of a zip header can hold (files of reproducible
+		// builds are dated 0 or 1 s after the epoch): the extended time stamp of the header carries such dates
+		return time.Date(1975, 6, 1, 0, 0, 1, 0, time.UTC).Add(time.Duration(i)*3601*time.Second + time.Duration((i*137+250)%1000)*time.Millisecond)
+	}
 	return mtimeBase.Add(time.Duration(i)*3601*time.Second + time.Duration((i*137+250)%1000)*time.Millisecond)
 }
 
